@@ -5,7 +5,7 @@ from __future__ import annotations
 from fractions import Fraction
 
 from . import terms as T
-from .canon import Canon
+from .canon import Canon, explain_diff
 from .consteval import is_num, qof
 from .ctx import VERSIONS
 from .interp import Dead, Ref, TupleVal, mk_and, mk_not, mk_or
@@ -471,6 +471,40 @@ def check_c11(ctx, led, v):
                 where,
                 "minimal=True can drop the base field %s" % k,
             )
+        # a field that minimal=True keeps must carry the value the full output carries
+        full = maps.get((False, False))
+        if full is not None:
+            of_, stf, _, _ = full
+            for k in sorted(om_.entries):
+                if k not in of_.entries:
+                    led.violation("C11.minimal.values", "%s.as_json(minimal=True)[%s]" % (om.clsname, k), where, "minimal=True emits %s, which the full output lacks" % k)
+                    continue
+                pm = cm(om_.entries[k][0])
+                if isinstance(pm, Const) and pm.v is False:
+                    continue
+                vm, vf = om_.entries[k][1], of_.entries[k][1]
+                n += 1
+                if vm is vf:
+                    same = True
+                elif isinstance(vm, Term) and isinstance(vf, Term):
+                    sm, sf = stm.copy(), stf.copy()
+                    try:
+                        if not (isinstance(pm, Const) and pm.v is True):
+                            om.ev.assume(sm, pm)
+                            om.ev.assume(sf, pm)
+                        same = Canon(om.ev, sm)(vm) == Canon(om.ev, sf)(vf)
+                    except Exception:
+                        same = cm(vm) == Canon(om.ev, stf)(vf)
+                else:
+                    same = False
+                led.check(
+                    same,
+                    "C11.minimal.values",
+                    "%s.as_json(minimal=True)[%s]" % (om.clsname, k),
+                    where,
+                    "the value of %s under minimal=True differs from its value in the full output: %s"
+                    % (k, explain_diff(vm, vf) if isinstance(vm, Term) and isinstance(vf, Term) else "different objects"),
+                )
         if v == 4:
             for k in sorted(fullkeys):
                 p = cm(om_.entries[k][0]) if k in om_.entries else Const(False)
